@@ -1730,6 +1730,18 @@ SPECS = [
          world_ops={"self._send_error_response": dict(fn="E.sendError", ret=None), "self._route_request": dict(fn="E.route", ret=None, args=False),
                     "self._start_titan_upload": dict(fn="E.startUpload", ret=None, args=False),
                     "self._send_middleware_rejection": dict(fn="E.reject", ret=None, raw_args=True)}),
+    dict(name="handleHandlerResult", file="server/protocol.py", cls="GeminiServerProtocol", func="_handle_async_handler_result", state="s", thread="s", implicit_return=True,
+         header="def handleHandlerResult (E : Srv.ResEnv) (s : Srv.PState) : Srv.PState × Unit :=", state_type="Srv.PState",
+         try_calls={"result": dict(fn="E.taskResult", nargs=0, handlers=[(("Exception", "asyncio.CancelledError"), ".error e")], rtype="obj")},
+         try_rest_any=True, skip_src=("if not response.url",),
+         rename={"StatusCode.TEMPORARY_FAILURE": "40"}, opaque={"str(e)": "e"}, types={"e": "str", "str(e)": "str"},
+         world_ops={"self._send_error_response": dict(fn="E.sendError", ret=None), "self._send_response": dict(fn="E.sendResponse", ret=None)}),
+    dict(name="handleUploadResult", file="server/protocol.py", cls="GeminiServerProtocol", func="_handle_titan_upload_result", state="s", thread="s", implicit_return=True,
+         header="def handleUploadResult (E : Srv.ResEnv) (s : Srv.PState) : Srv.PState × Unit :=", state_type="Srv.PState",
+         try_calls={"result": dict(fn="E.taskResult", nargs=0, handlers=[(("Exception", "asyncio.CancelledError"), ".error e")], rtype="obj")},
+         try_rest_any=True, skip_src=("if not response.url",),
+         rename={"StatusCode.TEMPORARY_FAILURE": "40"}, opaque={"str(e)": "e"}, types={"e": "str", "str(e)": "str"},
+         world_ops={"self._send_error_response": dict(fn="E.sendError", ret=None), "self._send_response": dict(fn="E.sendResponse", ret=None)}),
     dict(name="pumpResponse", file="server/protocol.py", cls="GeminiServerProtocol", func="_pump_response", state="s", thread="s", implicit_return=True,
          header="def pumpResponse (s : Srv.Flow.FSt) : Srv.Flow.FSt × Unit :=", state_type="Srv.Flow.FSt",
          loops=("", "", "s.unsent.length"),
@@ -1834,7 +1846,7 @@ PRELUDE = {
     "uploadGate": ([], []),
     "followRedirects": (["NauyacaVerif.Cl.Redirect"], []),
     "dataReceived": (["NauyacaVerif.Srv.PState"], []),
-    "handleMwResult": (["NauyacaVerif.Srv.PState"], []),
+    "handleMwResult": (["NauyacaVerif.Srv.PState"], []), "handleHandlerResult": (["NauyacaVerif.Srv.PState"], []), "handleUploadResult": (["NauyacaVerif.Srv.PState"], []),
     "handleGeminiRequest": (["NauyacaVerif.Srv.PState"], []), "processTitanUpload": (["NauyacaVerif.Srv.PState"], []),
     "staticHandle": (["NauyacaVerif.Fs.StaticPy"], []),
     "pumpResponse": (["NauyacaVerif.Srv.FlowPy"], []), "resumeWriting": (["NauyacaVerif.Srv.FlowPy", "NauyacaVerif.Gen.Fn.PumpResponse"], []),
